@@ -48,13 +48,6 @@ def check_build_pair(case):
                     if not lines[i + 1].startswith('//'):
                         raise Fail(f'{fn}: comment line ending in a backslash splices code: '
                                    f'{line!r} / {lines[i + 1]!r}', 'splice')
-            # the user text occurs only inside comment lines
-            for cr, ci in case['texts']:
-                for piece in c19.c17.split_ref(cr or '') + c19.c17.split_ref(ci or ''):
-                    piece = piece.strip()
-                    if len(piece) >= 3 and any(piece in l and not l.startswith('//') for l in lines):
-                        raise Fail(f'{fn}: user text {piece!r} occurs outside a comment line',
-                                   'text-outside-comment')
 
 
 def run(ctx):
